@@ -254,3 +254,8 @@ T('pkgL_t_callable_runner_with_star_args', ['C20'],
 B('pkgL_b_callable_runner_with_star_args_leaks', ['C20'], 'R20.b',
   (FL, _TRY, "    parsed_error = _attempt(lambda: _ParsedTB.from_string(traceback_string).to_dict(), default={})\n"),
   (FL, "def get_flaw_info(tb_str,", _ATTEMPT_ARGS.replace('except BaseException:', 'except (ValueError, IndexError):')))
+T('pkgL_t_resources_zipped_routes_starred', ['C20'],
+  (FL, "_ASSET_PATH = os.path.join(_CUR_PATH, '_clastic_assets')\n", "_ASSET_PATH = os.path.join(_CUR_PATH, '_clastic_assets')\n_RESOURCE_NAMES = ('tb_str', 'parsed_error', 'all_mon_files', 'mon_files')\n"),
+  (FL, _RESOURCES, "    values = (traceback_string, parsed_error, monitored_files, non_site_files)\n    resources = dict(zip(_RESOURCE_NAMES, values))\n"),
+  (FL, _ROUTES, "    first, last = [(pattern, get_flaw_info, 'flaw_tmpl') for pattern in ('/', '/<_ignored*>')]\n"
+                "    middle = [('/clastic_assets/', StaticApplication(_ASSET_PATH))]\n    routes = [first, *middle, last]\n"))
